@@ -105,12 +105,12 @@ def gen_options(r: random.Random, rise=None, fall=None, wod=None, debounce=None,
     o['increase'] = r.choice([None, None, 0, 1, 10, 1000])
 
     def comm():
-        return [r.choice([(65000, 1), (65000, 2), (64512, 65535), (1, 0), 'no-export', 'no-advertise']) for _ in range(r.choice([1, 1, 2, 3]))]
+        return r.sample([(65000, 1), (65000, 2), (64512, 65535), (1, 0), 'no-export', 'no-advertise'], r.choice([1, 1, 2, 3]))
 
     o['community'] = comm() if r.random() < 0.45 else None
     o['disabled_community'] = comm() if r.random() < 0.3 else None
-    o['extended_community'] = [r.choice([('target', 65000, 1), ('origin', 64512, 77), ('target', 1, 4294967295)]) for _ in range(r.choice([1, 2]))] if r.random() < 0.2 else None
-    o['large_community'] = [r.choice([(1, 2, 3), (4200000000, 0, 1), (65000, 4294967295, 7)]) for _ in range(r.choice([1, 2]))] if r.random() < 0.2 else None
+    o['extended_community'] = r.sample([('target', 65000, 1), ('origin', 64512, 77), ('target', 1, 4294967295)], r.choice([1, 2])) if r.random() < 0.2 else None
+    o['large_community'] = r.sample([(1, 2, 3), (4200000000, 0, 1), (65000, 4294967295, 7)], r.choice([1, 2])) if r.random() < 0.2 else None
     asn4 = (not plain) and r.random() < 0.05
 
     def path():
